@@ -346,6 +346,13 @@ class Run:
         cases = corpus + [stream.gen(rng) for _ in range(n_cases)]
         t = time.time()
         impl = stream.impl(cases)
+        # harness-level failures (a driver could not set its scenario up under load, a process died) are retried
+        # alone before they are believed
+        for i, o in enumerate(impl):
+            for _ in range(2):
+                if any(l.startswith(("err-", "CRASH", "dial-failed", "send-failed")) for l in o):
+                    o = stream.impl([cases[i]])[0]
+                    impl[i] = o
         model = stream.model(cases, impl)
         self.log(f"stream {stream.name}: {len(cases)} cases ({len(corpus)} corpus), "
                  f"{sum(len(c) for c in cases)} ops, {time.time()-t:.1f}s")
